@@ -37,12 +37,25 @@ pub fn sym<A: Cx>(code: u8) -> A {
     A::try_from_bits(code).unwrap_or_else(|| panic!("harness: {} has no symbol with code {code}", A::NAME))
 }
 
+/// Whether views also observe structural equality (`canon`).  Only the scenarios of properties
+/// whose statement covers equality / hashing (C02, C18, C20) switch it on, so that a check never
+/// raises an alarm about a clause that belongs to another property.
+pub static CANON: std::sync::atomic::AtomicBool = std::sync::atomic::AtomicBool::new(false);
+
+pub fn canon_scenario(name: &str) -> bool {
+    name.starts_with("c02") || name.starts_with("c18") || name.starts_with("c20")
+}
+
 pub fn view<A: Cx>(s: &SeqSlice<A>) -> Value {
     let syms: Vec<u64> = s.iter().map(|x| x.to_bits() as u64).collect();
-    // content is all there is (C02): the value must be == to, and hash like, the sequence
-    // rebuilt from its own symbols -- whatever bits it happens to be stored as
-    let rebuilt: Seq<A> = s.iter().collect();
-    let canon = *s == rebuilt && rebuilt == *s && !(*s != rebuilt) && feed_of(s) == feed_of(&rebuilt);
+    let canon = if CANON.load(std::sync::atomic::Ordering::Relaxed) {
+        // content is all there is (C02): the value must be == to, and hash like, the sequence
+        // rebuilt from its own symbols -- whatever bits it happens to be stored as
+        let rebuilt: Seq<A> = s.iter().collect();
+        *s == rebuilt && rebuilt == *s && !(*s != rebuilt) && feed_of(s) == feed_of(&rebuilt)
+    } else {
+        true
+    };
     json!({"len": s.len(), "syms": syms, "disp": s.to_string().into_bytes(), "canon": canon})
 }
 
